@@ -197,6 +197,14 @@ INV_MODULES = {
            'function p.sget(frame) return "s=" .. tostring(string.leaked) end\nreturn p\n',
     "F": 'local p = {}\nfunction p.err(frame) error("boom") end\nfunction p.badutf(frame) return "\\255\\254" end\n'
          'function p.loop(frame) while true do end end\nreturn p\n',
+    "LD": 'local p = {}\n'
+          'local function wr(d) local b = tostring(d.x) pcall(function() d.x = "set" end) return "d=" .. b end\n'
+          'function p.ldset(frame) return wr(mw.loadData("Module:LDdata")) end\n'
+          'function p.ldget(frame) return "d=" .. tostring(mw.loadData("Module:LDdata").x) end\n'
+          'function p.ljset(frame) return wr(mw.loadJsonData("Module:LJ.json")) end\n'
+          'function p.ljget(frame) return "d=" .. tostring(mw.loadJsonData("Module:LJ.json").x) end\n'
+          'return p\n',
+    "LDdata": 'return { x = "init", list = { "a", "b" } }\n',
     "Nil": "return nil\n",
     "Syn": "local p = {\n",
     "Bad": 'error("load boom")\n',
@@ -209,10 +217,12 @@ INV_MODULES = {
 INV_SIMPLE = {
     "bump": ("Ctr", "bump"), "bump2": ("Ctr", "bump2"), "peek": ("Ctr", "peek"), "reqbump": ("Req", "reqbump"),
     "gset": ("G", "gset"), "gget": ("G", "gget"), "rget": ("R", "rget"), "sset": ("Str", "sset"), "sget": ("Str", "sget"),
+    "ldset": ("LD", "ldset"), "ldget": ("LD", "ldget"), "ljset": ("LD", "ljset"), "ljget": ("LD", "ljget"),
     "nofn": ("F", "nofn"), "err": ("F", "err"), "loaderr": ("Bad", "f"), "nomod": ("Nomod", "f"), "nilmod": ("Nil", "f"),
     "synmod": ("Syn", "f"), "badutf": ("F", "badutf"), "timeout": ("F", "loop"),
 }
-INV_PREFIX = {"bump": "c=", "bump2": "c=", "peek": "c=", "reqbump": "r=", "gset": "g=", "gget": "g=", "rget": "x=", "sset": "s=", "sget": "s="}
+INV_PREFIX = {"bump": "c=", "bump2": "c=", "peek": "c=", "reqbump": "r=", "gset": "g=", "gget": "g=", "rget": "x=", "sset": "s=", "sget": "s=",
+              "ldset": "d=", "ldget": "d=", "ljset": "d=", "ljget": "d="}
 INV_TIMEOUT = 0.05   # seconds; the sandbox clock has 1 s granules, so the loop is stopped within about a second
 INV_RENDERINGS = ("calls", "text", "tmpl")
 INV_SEP = " ; "
@@ -288,6 +298,7 @@ def inv_populate(path):
     luastub.install(ctx)
     for name, src in INV_MODULES.items():
         luastub.add_module(ctx, name, src)
+    ctx.add_page("Module:LJ.json", 828, body='{"x": "init", "list": ["a", "b"]}', model="json")
     ctx.add_page("Template:Inv", 10, body="{{#invoke:{{{1}}}|{{{2}}}}}")
     ctx.add_page("Template:Call", 10, body="{{#invoke:{{{1}}}|{{{2}}}|{{{3|}}}|{{{4|}}}}}")
     ctx.db_conn.commit()
@@ -359,11 +370,14 @@ INV_WHY_KEPT = ("; the as-coded model with the deviation EnvKeptOnAbort (the env
                 "_lua_reset_env) predicts exactly the observed outputs")
 
 
-def invocation_histories(o, tier, gen, demo):
+def invocation_histories(o, tier, gen, demo, dld):
     """gen / demo: TLCResults of Gen_ContextInvoke_<tier>.cfg and Demo_ContextInvoke_envkept.cfg."""
     thorough = tier == "thorough"
     o.add_tlc("Gen_ContextInvoke (invocation histories on one page; law MeetsDemand)", gen)
     o.extra["demo_envkept_violates_MeetsDemand"] = bool(demo.invariant_violated)
+    o.extra["demo_loaddata_violates_MeetsDemand"] = bool(dld.invariant_violated)
+    if not dld.invariant_violated:
+        raise common.TLCError("Demo_ContextInvoke_loaddata lost its counterexample")
     if not demo.invariant_violated:
         raise common.TLCError("Demo_ContextInvoke_envkept lost its counterexample")
     cases = gen.cases
@@ -371,7 +385,7 @@ def invocation_histories(o, tier, gen, demo):
         raise common.TLCError("Gen_ContextInvoke produced only %d cases" % len(cases))
     rng = random.Random(common.seed() * 67 + 909)
     vkinds = sorted(set(INV_SIMPLE) - {"timeout"}) + ["n_nomod", "n_nilmod", "n_synmod", "n_badutf", "n_nofn", "n_err", "n_loaderr",
-                                                      "n_bump", "t_nomod", "t_badutf", "t_bump", "page"]
+                                                      "n_bump", "t_nomod", "t_badutf", "t_bump", "page"]   # (the loadData kinds are in INV_SIMPLE)
     vh = [[rng.choice(vkinds) for _ in range(rng.randint(5, 12))] for _ in range(400 if thorough else 60)]
     with Scratch("c09i-") as d:
         dbdir = d / "base"
@@ -405,6 +419,15 @@ def invocation_histories(o, tier, gen, demo):
         bg = ThreadPoolExecutor(1)
         f_rv = bg.submit(inv_trace_run, [[inv_abstract(k, t) for k, t in zip(h, got)] for h, (got, _) in zip(vh, vres)])
         results = pmap(inv_worker, items, chunk=max(1, len(items) // 128))
+    def known_loaddata(origin, hist, rendering, i, got, exp_i):
+        """Invocation #i shows what the as-is model with LoadDataTableMutableWithinPage predicts (and the ideal does not)."""
+        case = {"origin": origin, "rendering": rendering, "history": hist[: i + 1], "invocation": inv_text(hist[i], rendering),
+                "got": got[i][:200], "model": exp_i[:200], "all_outputs": [g[:80] for g in got]}
+        o.classify(case, f"invocation #{i + 1} ({hist[i]}) of one page reads {got[i][:80]!r} from the table of mw.loadData / mw.loadJsonData where "
+                         f"the specification demands {exp_i!r}: the value was written by an earlier invocation of the page (the cached "
+                         "table is handed out writable and the cache is only cleared by start_page)",
+                   ["LoadDataTableMutableWithinPage"], cls="invocation-history:loadData")
+
     def judge(origin, hist, rendering, i, got, exp_i, again, kept_explains):
         kind = hist[i]
         case = {"origin": origin, "rendering": rendering, "history": hist[: i + 1], "invocation": inv_text(kind, rendering),
@@ -437,8 +460,15 @@ def invocation_histories(o, tier, gen, demo):
             continue
         c = cases[int(hid.split("-")[0])]
         kept = [inv_render(x) if x["k"] != "page" else "" for x in c["kept"]]
-        i = next(j for j in range(len(hist)) if got[j] != exp[j])
-        judge("I/G", hist, rendering, i, got, exp[i], again, bool(kept) and got == kept)
+        asis = [inv_render(x) if x["k"] != "page" else "" for x in c["asis"]] or exp
+        for i in range(len(hist)):
+            if got[i] == exp[i]:
+                continue
+            if got[i] == asis[i]:       # explained by the as-is lifetime of the loadData tables (named deviation)
+                known_loaddata("I/G", hist, rendering, i, got, exp[i])
+                continue
+            judge("I/G", hist, rendering, i, got, exp[i], again, bool(kept) and got == kept)
+            break
 
     rv = f_rv.result()
     bg.shutdown()
@@ -453,10 +483,14 @@ def invocation_histories(o, tier, gen, demo):
         vd = verdicts[n]
         if not vd["law"]:
             raise common.TLCError("ContextInvoke: MeetsDemand fails on %r without deviation" % (h,))
-        if vd["bad"]:
-            i = min(vd["bad"]) - 1
-            x = vd["exp"][i]
-            judge("I/V", h, "calls", i, got, inv_render(x) if x["k"] != "page" else "", None, bool(vd["keptExplains"]))
+        for i in sorted(j - 1 for j in vd["bad"]):
+            x, a = vd["exp"][i], vd["asis"][i]
+            exp_i = inv_render(x) if x["k"] != "page" else ""
+            if a != x and inv_abstract(h[i], got[i]) == a:
+                known_loaddata("I/V", h, "calls", i, got, exp_i)
+                continue
+            judge("I/V", h, "calls", i, got, exp_i, None, bool(vd["keptExplains"]))
+            break
     o.extra["invocation_histories"] = {"G_histories": len(cases), "G_runs": len(items), "renderings": list(INV_RENDERINGS),
                                        "V_histories": len(vh), "kinds": len(kinds) + 1,
                                        "histories_where_EnvKeptOnAbort_differs": sum(1 for c in cases if c["kept"])}
@@ -472,9 +506,10 @@ def run(tier: str) -> int:
     # the TLC runs of the invocation-level engine go on in the background meanwhile
     from concurrent.futures import ThreadPoolExecutor
 
-    bg = ThreadPoolExecutor(2)
+    bg = ThreadPoolExecutor(3)
     f_gen = bg.submit(tlc, "Gen_ContextInvoke", "Gen_ContextInvoke_%s.cfg" % ("thorough" if thorough else "quick"), workers=1, timeout=3000)
     f_demo = bg.submit(tlc, "Gen_ContextInvoke", "Demo_ContextInvoke_envkept.cfg", workers=1, check=False)
+    f_dld = bg.submit(tlc, "Gen_ContextInvoke", "Demo_ContextInvoke_loaddata.cfg", workers=1, check=False)
     r = tlc("Gen_Context", "MC_Context_ideal.cfg", workers=8, timeout=1800)
     o.add_tlc("MC_Context_ideal (NonInterference, all histories <= 4)", r)
     dmo = tlc("Gen_Context", "Demo_Context_asbuilt.cfg", workers=1, check=False)
@@ -528,9 +563,9 @@ def run(tier: str) -> int:
     for j, (h, res) in enumerate(zip(extra, vres)):
         compare(h, res, vmodel[j], "V")
     t_inv = time.time()
-    g_res, d_res = f_gen.result(), f_demo.result()
+    g_res, d_res, l_res = f_gen.result(), f_demo.result(), f_dld.result()
     t_wait = time.time() - t_inv
-    invocation_histories(o, tier, g_res, d_res)
+    invocation_histories(o, tier, g_res, d_res, l_res)
     o.extra["invocation_histories"]["wall_s"] = {"waiting_for_TLC": round(t_wait, 1), "total": round(time.time() - t_inv, 1)}
     bg.shutdown()
     o.rule += ("; invocation level: every history of #invoke kinds on one page x rendering is one case "
